@@ -84,7 +84,7 @@ def literalise_steps(routine):
 def find_target(kind, routine, target):
     from psyclone.psyir.nodes import Assignment, Loop
     loops = body_loops(routine)
-    if kind in ("chunk", "swap"):
+    if kind in ("chunk", "swap", "hoistbound", "tile2d"):
         return loops[target[0]]
     if kind == "fuse":
         return loops[target[0]], loops[target[1]]
@@ -98,7 +98,7 @@ def find_target(kind, routine, target):
 def enumerate_targets(kind, routine):
     from psyclone.psyir.nodes import Assignment, Loop
     loops = body_loops(routine)
-    if kind in ("chunk", "swap"):
+    if kind in ("chunk", "swap", "hoistbound", "tile2d"):
         return [[k] for k in range(len(loops))]
     if kind == "fuse":
         out = []
@@ -115,7 +115,8 @@ def enumerate_targets(kind, routine):
 def transformation(kind):
     from psyclone.psyir import transformations as T
     return {"chunk": T.ChunkLoopTrans, "fuse": T.LoopFuseTrans, "swap": T.LoopSwapTrans,
-            "hoist": T.HoistTrans}[kind]()
+            "hoist": T.HoistTrans, "hoistbound": T.HoistLoopBoundExprTrans,
+            "tile2d": T.LoopTiling2DTrans}[kind]()
 
 
 def loop_parts(loop, names):
@@ -158,7 +159,12 @@ def run_real(case):
             adjacent = abs(l1.position - l2.position) == 1
             reversed_ = l2.position < l1.position
             case.info = {"reversed": reversed_, "v1": l1.variable.name, "v2": l2.variable.name}
-        elif kind == "swap":
+        elif kind == "hoistbound":
+            loop = tgt
+            model_loop = minif.export_stmt(loop, names)
+            parent, pos = loop.parent, loop.position
+            case.info = {}
+        elif kind in ("swap", "tile2d"):
             loop = tgt
             parent, pos = loop.parent, loop.position
             kids = children_sx(loop.loop_body.children, names)
@@ -166,6 +172,12 @@ def run_real(case):
             inner = loop.loop_body.children[0] if loop.loop_body.children else None
             case.info = {"v": loop.variable.name,
                          "vi": inner.variable.name if isinstance(inner, Loop) else None}
+            if kind == "tile2d":
+                tile = 32 if not case.opts else case.opts.get("tilesize", 32)
+                case.info.update({"tile": tile, "steps": [hdr[3]] + ([minif.export_expr(inner.step_expr, names)]
+                                                                     if isinstance(inner, Loop) else []),
+                                  "hi_mentions_v": any(l.variable.name in [r.name for r in l.stop_expr.walk(Reference)]
+                                                       for l in [loop] + ([inner] if isinstance(inner, Loop) else []))})
         else:
             node = tgt
             loop = node.ancestor(Loop)
@@ -185,7 +197,7 @@ def run_real(case):
         try:
             if kind == "fuse":
                 trans.apply(l1, l2)
-            elif kind == "chunk":
+            elif kind in ("chunk", "tile2d"):
                 trans.apply(loop, case.opts)
             else:
                 trans.apply(tgt)
@@ -199,6 +211,9 @@ def run_real(case):
             elif kind == "hoist":
                 case.real_out = norm(["seqs", minif.export_stmt(parent.children[pos], names),
                                       minif.export_stmt(parent.children[pos + 1], names)])
+            elif kind == "hoistbound":
+                case.real_out = norm(["seqs"] + [minif.export_stmt(c, names)
+                                                 for c in parent.children[pos:loop.position + 1]])
             else:
                 case.real_out = norm(minif.export_stmt(parent.children[pos], names))
             case.new_prog = minif.export_stmt(routine, names)
@@ -212,6 +227,22 @@ def run_real(case):
             else:
                 out_id, el_id = FRESH0, FRESH0 + 1
             case.line = sx(["chunk", model_loop, chunk, 0, out_id, el_id])
+        elif kind == "hoistbound":
+            ids = []
+            for k, b in enumerate([loop.start_expr, loop.stop_expr, loop.step_expr]):
+                new = type(b) is Reference and names.ids.get(b.name.lower(), 10 ** 9) >= n_before
+                ids.append(names.id(b.name) if new else FRESH0 + k)
+            case.line = sx(["hoistbound", model_loop] + ids)
+        elif kind == "tile2d":
+            if case.accepted:
+                outer = parent.children[pos]
+                l2 = outer.loop_body.children[1]
+                l3 = l2.loop_body.children[0]
+                ids = [names.id(outer.variable.name), names.id(outer.loop_body.children[0].lhs.name),
+                       names.id(l2.variable.name), names.id(l3.loop_body.children[0].lhs.name)]
+            else:
+                ids = [FRESH0, FRESH0 + 1, FRESH0 + 2, FRESH0 + 3]
+            case.line = sx(["tile2d"] + hdr + [kids, tile] + ids)
         elif kind == "fuse":
             case.line = sx(["fuse", m1, m2, int(adjacent), int(reversed_)])
         elif kind == "swap":
@@ -323,6 +354,19 @@ def classify(case, diff_labels):
         if only_loopvars and set(diff_labels) <= {info["v"], info["vi"]}:
             return "C05-zero-trip-loop-variable"
         return "C05-swap-dependence"
+    if kind == "tile2d":
+        for st in info["steps"]:
+            if st[0] == "lit" and st[1] < 0:
+                return "C05-chunk-negative-step"
+            if st[0] == "lit" and st[1] > 0 and info["tile"] % st[1] != 0:
+                return "C05-chunk-step-not-dividing"
+        if info["hi_mentions_v"]:
+            return "C05-chunk-stop-mentions-loopvar"
+        if only_loopvars and set(diff_labels) <= {info["v"], info["vi"]}:
+            return "C05-zero-trip-loop-variable"
+        return "C05-swap-dependence"
+    if kind == "hoistbound":
+        return None
     if kind == "hoist":
         t = static_trip(case)
         if t is None or t == 0:
@@ -346,21 +390,28 @@ def gfortran_outputs(case):
 def make_cases(chk, n):
     rng = chk.rng
     cases = []
-    for k in range(n):
+    systematic = G.gen_swap_systematic(rng)
+    for k in range(n + len(systematic)):
         x = rng.random()
-        if x < 0.3:
+        if k < len(systematic):
+            p, kinds = systematic[k], [("swap", None), ("tile2d", {"tilesize": rng.choice([2, 2, 3, 4])})]
+        elif x < 0.3:
             p, opts = G.gen_chunk(rng)
-            kinds = [("chunk", opts)]
+            kinds = [("chunk", opts), ("hoistbound", None)]
         elif x < 0.55:
             p, kinds = G.gen_fuse(rng), [("fuse", None)]
         elif x < 0.72:
-            p, kinds = G.gen_swap(rng), [("swap", None), ("chunk", rng.choice([None, {"chunksize": 2}]))]
+            p, kinds = G.gen_swap(rng), [("swap", None), ("chunk", rng.choice([None, {"chunksize": 2}])),
+                                         ("tile2d", rng.choice([None, {"tilesize": 2}, {"tilesize": 2}, {"tilesize": 3},
+                                                                {"tilesize": 4}, {"tilesize": 0}])),
+                                         ("hoistbound", None)]
         elif x < 0.9:
-            p, kinds = G.gen_hoist(rng), [("hoist", None)]
+            p, kinds = G.gen_hoist(rng), [("hoist", None), ("hoistbound", None)]
         else:
             p = G.gen_generic(rng)
             kinds = [("chunk", rng.choice([None, {"chunksize": 2}, {"chunksize": 3}])), ("fuse", None),
-                     ("swap", None), ("hoist", None)]
+                     ("swap", None), ("hoist", None), ("hoistbound", None),
+                     ("tile2d", rng.choice([None, {"tilesize": 2}, {"tilesize": 3}]))]
         src = p.source()
         try:
             _, routine = minif.parse_program(src)
@@ -472,8 +523,7 @@ def evaluate(chk, cases, stats, gf_budget, sample_rate=0.04):
     return stats["failing"]
 
 
-UNMODELLED = {"replaceiv": "ReplaceInductionVariablesTrans", "hoistbound": "HoistLoopBoundExprTrans",
-              "tile2d": "LoopTiling2DTrans"}
+UNMODELLED = {"replaceiv": "ReplaceInductionVariablesTrans"}
 
 
 def prepare_unmodelled(payload):
@@ -524,15 +574,16 @@ def run(chk):
     chk.cov["rule"] = ("generated loop programs (literal/scalar/array bounds, steps 1..4 and negative, zero-trip and "
                        "single-trip loops, nested loops, conditionals) x every target of ChunkLoopTrans (chunksize "
                        "default/1..6/invalid), LoopFuseTrans (adjacent, reversed and non-adjacent sibling pairs), "
-                       "LoopSwapTrans, HoistTrans; non-trivial = every case (each has a loop target); distinct by "
+                       "HoistLoopBoundExprTrans, LoopTiling2DTrans (tilesize default/2..4/invalid), LoopSwapTrans (random nests plus, on every run, one nest per position at which a start/stop/step of one loop "
+                       "references the other loop variable, and rectangular controls), HoistTrans; non-trivial = every case (each has a loop target); distinct by "
                        "canonical JSON of body+target+options")
     chk.assumptions += [
         "SymbolicMaths.equal on loop bounds is modelled as syntactic equality (generator emits identical or "
         "numerically different bound texts)",
         "symbols created by a transformation are fresh (checked per case: ids are taken from the real result)",
         "programs stay inside MiniF: integer scalars, rank<=2 arrays, no CodeBlocks inside loops, 32-bit range",
-        "LoopTiling2DTrans, HoistLoopBoundExprTrans, ReplaceInductionVariablesTrans, "
-        "FoldConditionalReturnExpressionsTrans are outside the theorems (see report)"]
+        "ReplaceInductionVariablesTrans (execution oracle on its finding only) and "
+        "FoldConditionalReturnExpressionsTrans (MiniF has no RETURN) are outside the model"]
     chk.cov["trusted_base"] = ["Lean 4.33.0 kernel", "axioms propext/Classical.choice/Quot.sound only (audited)",
                                "MiniF semantics (validated against gfortran on every differing case and a sample)",
                                "harness/minif.py exporter, harness/props/c05.py correspondence and classifiers"]
